@@ -128,6 +128,16 @@ CLAIMS = {
         "Bounded native run: bytes vs a straight-line reference pipeline and bit-identical output for every partition.",
    note="trusted: pyvc engine; stage contracts proved under C08/C09/C10 and used modularly; one antenna in the deductive contract; num_taps enumerated; FFT numerics bounded",
    technique="contract-based deductive verification (loop invariant with ghost stream positions, affine scatter inversion, stepwise window-arithmetic lemmas); bounded native reference pipeline"),
+ 'C14': dict(cat='proof', ref='DESIGN.md 2/C14',
+   text="_read_next_block decodes every (channel, time, polarisation) sample of an input block to exactly the stored pair in GUPPI layout for "
+        "8 and 4 bit (unpack inverts the nibble packing), 1-2 pols, 1-2 antennas, and consumes exactly header+block bytes (header padded or "
+        "not); collect_data_block with input data: the sub-block invariant of C02 extended with the input - every output sample is the "
+        "requantisation of (input sample at the same (c,t,p) + synthetic sample requantised with zero mean and gain channelized_stds x "
+        "digitiser target deviation), the gain passed is the same in every sub-block and the filterbank's channelized_stds are never "
+        "modified (frame condition inside the loop invariant), target means restored; requantize=False is rejected. from_data framing: "
+        "proved in the C04 check. Bounded native run: decode round trip, framing, flat added power per sub-block.",
+   note="trusted: pyvc engine; input files follow the writer layout of C04; stage contracts modular; one antenna in the injection contract, taps enumerated; requantiser target statistics bounded only",
+   technique="contract-based deductive verification (loop invariant incl. frame condition, modular stage contracts, symbolic file layout); bounded native replay"),
 }
 NA_REASON = "not yet built in this session (see DESIGN.md build order)"
 
